@@ -11,4 +11,5 @@
 #include "c06.hpp"
 #include "c15.hpp"
 #include "c16.hpp"
+#include "c17.hpp"
 #include "c18.hpp"
